@@ -78,7 +78,7 @@ PERMS = ['allow', 'allow', 'allow', 'allow', 'deny_callback',
          'no_port_forwarding', 'permitopen_ok', 'permitopen_wild_port',
          'permitopen_other_port', 'permitopen_other_host',
          'permitopen_other_host_wild', 'permitopen_multi_other', 'cert_pf',
-         'cert_no_pf', 'cert_no_pf_key_ok']
+         'cert_no_pf', 'cert_no_pf_key_ok', 'cert_nothing']
 UNIX_DEST = ('local_unix', 'remote_unix', 'local_port_to_path',
              'open_unix_connection')
 UNIX_LISTEN = ('local_unix', 'remote_unix', 'local_path_to_port')
@@ -389,7 +389,7 @@ def _expected_permitted(case):
     if p in ('allow', 'permitopen_ok', 'permitopen_wild_port', 'cert_pf'):
         return True
     if p in ('deny_callback', 'no_port_forwarding', 'cert_no_pf',
-             'cert_no_pf_key_ok'):
+             'cert_no_pf_key_ok', 'cert_nothing'):
         return False
     # permitopen naming another destination: restricts direct-tcpip only
     if kind.startswith('remote') or kind in UNIX_DEST:
@@ -441,11 +441,18 @@ def run_case(case):
                    f'permitopen="otherhost:*",permitopen="127.0.0.2:{port}",'
                    f'permitopen="127.0.0.1:{(port % 60000) + 1}" ',
                }.get(perm, '')
-        if perm in ('cert_pf', 'cert_no_pf', 'cert_no_pf_key_ok'):
+        if perm in ('cert_pf', 'cert_no_pf', 'cert_no_pf_key_ok',
+                    'cert_nothing'):
             ca = apps.host_key('ssh-ed25519', 41)
+            kw = {}
+            if perm == 'cert_nothing':
+                # `ssh-keygen -O clear`: no permit-* extension at all
+                kw = dict(permit_x11_forwarding=False,
+                          permit_agent_forwarding=False, permit_pty=False,
+                          permit_user_rc=False)
             cert = ca.generate_user_certificate(
                 ukey, 'user', principals=['user'],
-                permit_port_forwarding=(perm == 'cert_pf'))
+                permit_port_forwarding=(perm == 'cert_pf'), **kw)
             client_keys = [(ukey, cert)]
             pub = ca.export_public_key().decode()
             opt = 'cert-authority '
